@@ -323,7 +323,7 @@ func (e *Eng) bcopy(dst *ByteObj, dstOff *Term, n *Term, src *bnode, srcOff *Ter
 		return
 	}
 	// small concrete copies become stores of the resolved bytes (keeps chains shallow for headers)
-	if n.IsConst() && n.C <= 64 && dstOff.IsConst() && srcOff.IsConst() {
+	if n.IsConst() && n.C <= 16 && dstOff.IsConst() && srcOff.IsConst() {
 		vals := make([]*Term, n.C)
 		for k := uint64(0); k < n.C; k++ {
 			vals[k] = e.bread(src, e.tb.Const(64, srcOff.C+k))
